@@ -1090,15 +1090,226 @@ class _TreeTyped:
         return (False, "%s is not recognised as a tree" % u(e)[:60])
 
 
+def _tree_like(k, fi, depth=0):
+    """Is the abstract value `k` (a TermFlow key / value) a tree?  True / False (definitely not: None, a particle) /
+    None (undecided).  Works on the normalised term, so tuple unpacking, helper extraction, comprehensions and
+    early returns do not matter."""
+    from ..termflow import AList, ATuple, Poly, _is_polykey, poly_from_key, _const_of_key
+
+    if depth > 40:
+        return None
+    if k is None:
+        return False
+    if isinstance(k, (AList, ATuple)):
+        return None
+    if isinstance(k, Poly):
+        a = k.as_atom()
+        if a is None:
+            return False if k.is_const() else None
+        return _tree_like(a, fi, depth + 1)
+    if _is_polykey(k):
+        return _tree_like(poly_from_key(k), fi, depth + 1)
+    if not (isinstance(k, tuple) and k and isinstance(k[0], str)):
+        return None
+    tag = k[0]
+    if tag == "anyof":
+        rs = [_tree_like(x, fi, depth + 1) for x in k[1]]
+        return False if any(r is False for r in rs) else (None if any(r is None for r in rs) else True)
+    if tag == "cond":
+        return _tree_like(("anyof", tuple(v for _, v in k[1])), fi, depth + 1)
+    if tag == "v":
+        if k[1].startswith("P") and k[1][1:].isdigit() and int(k[1][1:]) < len(fi.params):
+            return True if fi.params[int(k[1][1:])] in TREE_PARAMS else None
+        return None
+    if tag == "const":
+        return False if k[1] in ("None",) else None
+    if tag == "upd":
+        return _tree_like(k[2], fi, depth + 1)
+    if tag == "mcall":
+        if k[1] in ("copy", "get_subtree", "__copy__"):
+            return _tree_like(k[2], fi, depth + 1)
+        if k[1] == "sample_tree":
+            return True
+        hook = getattr(_tree_like, "self_method", None)
+        if hook is not None:
+            r = hook(k, fi)
+            if r is not NotImplemented:
+                return r
+        if k[1].startswith("get_number_of") or k[1] in ("get_data_len", "get_subtree_data_len", "argmax", "sum"):
+            return False  # a count
+        return None
+    if tag == "call":
+        if k[1] in ("len", "sum", "max", "min", "log", "exp"):
+            return False
+        last = k[1].split(".")[-1].split(":")[-1]
+        if last in ("Tree", "from_dict", "get_single_node_tree"):
+            return True
+        return None
+    if tag == "attr":
+        if k[2] == "tree":
+            return True
+        if k[2] in ("particles", "log_weights", "weights"):
+            return False
+        return None
+    if tag == "sub":
+        c = _container(k[1], depth + 1)
+        if c is None:
+            # an element of the particle list is a particle, not its tree
+            ia = poly_from_key(k[1]).as_atom() if _is_polykey(k[1]) else k[1]
+            if isinstance(ia, tuple) and ia and ia[0] == "attr" and ia[2] == "particles":
+                return False
+            return None
+        idx = _const_of_key(k[2]) if _is_polykey(k[2]) else None
+        items = c
+        if idx is not None and idx.denominator == 1 and 0 <= int(idx) < len(items) and not any(isinstance(x, tuple) and x and x[0] == "anyof" for x in [items]):
+            pass
+        return _tree_like(("anyof", tuple(_pick(items, idx))), fi, depth + 1)
+    return None
+
+
+def _container(k, depth=0):
+    """Items of a list / tuple valued key (through cond and anyof), or None."""
+    from ..termflow import _is_polykey, poly_from_key
+
+    if depth > 40:
+        return None
+    if _is_polykey(k):
+        a = poly_from_key(k).as_atom()
+        if a is None:
+            return None
+        return _container(a, depth + 1)
+    if not (isinstance(k, tuple) and k and isinstance(k[0], str)):
+        return None
+    if k[0] in ("list", "tuple"):
+        return [("items", tuple(k[1]))]
+    if k[0] == "mcall" and getattr(_container, "self_method", None) is not None:
+        r = _container.self_method(k, depth)
+        if r is not NotImplemented:
+            return r
+    if k[0] == "cond":
+        out = []
+        for _, v in k[1]:
+            c = _container(v, depth + 1)
+            if c is None:
+                return None
+            out += c
+        return out
+    if k[0] == "sub":
+        c = _container(k[1], depth + 1)
+        if c is None:
+            return None
+        from ..termflow import _const_of_key
+
+        idx = _const_of_key(k[2]) if _is_polykey(k[2]) else None
+        out = []
+        for x in _pick(c, idx):
+            cc = _container(x, depth + 1)
+            if cc is None:
+                return None
+            out += cc
+        return out
+    return None
+
+
+def _pick(containers, idx):
+    """Elements selected from [("items", (...)), ...] by a constant index, or all elements for a symbolic one."""
+    out = []
+    for tag, items in containers:
+        if idx is not None and idx.denominator == 1 and -len(items) <= int(idx) < len(items):
+            out.append(items[int(idx)])
+        else:
+            out += list(items)
+    return out
+
+
+def _fn_tree_like(prog, fi, memo):
+    """(values, verdicts) per path of `fi`, its own class's methods kept opaque and judged recursively."""
+    from ..termflow import Poly, _is_polykey, poly_from_key
+
+    if fi.qualname in memo:
+        return memo[fi.qualname]
+    memo[fi.qualname] = ([], [True])  # recursion: assume, as for any inductive typing
+    names = set(fi.cls.methods) if fi.cls is not None else set()
+    for c in (prog.mro(fi.cls)[1:] if fi.cls is not None else []):
+        names |= set(c.methods)
+    exf = extract(prog, fi, opaque_self_methods=names - {fi.name} | ({fi.name} if False else set()))
+
+    def hook(k, cur):
+        recv = k[2]
+        ra = poly_from_key(recv).as_atom() if _is_polykey(recv) else recv
+        if ra == ("v", "P0") and cur.cls is not None:
+            m = prog.method(cur.cls, k[1])
+            if m is not None:
+                vs, rs = _fn_tree_like(prog, m, memo)
+                return False if any(r is False for r in rs) else (None if any(r is None for r in rs) else True)
+        return NotImplemented
+
+    def chook(k, depth):
+        recv = k[2]
+        ra = poly_from_key(recv).as_atom() if _is_polykey(recv) else recv
+        if ra == ("v", "P0") and fi.cls is not None:
+            m = prog.method(fi.cls, k[1])
+            if m is not None and depth < 30:
+                from ..termflow import vkey
+
+                exm = extract(prog, m, opaque_self_methods=names)
+                out = []
+                for _, v in exm.paths:
+                    c = _container(vkey(v) if v is not None else None, depth + 5) if v is not None else None
+                    if c is None:
+                        return None
+                    out += c
+                return out
+        return NotImplemented
+
+    old = getattr(_tree_like, "self_method", None)
+    oldc = getattr(_container, "self_method", None)
+    _tree_like.self_method = hook
+    _container.self_method = chook
+    try:
+        vals = [v for _, v in exf.paths]
+        verdicts = [_tree_like(v, fi) for v in vals]
+    finally:
+        _tree_like.self_method = old
+        _container.self_method = oldc
+    memo[fi.qualname] = (vals, verdicts)
+    return memo[fi.qualname]
+
+
 def rule_L2(ctx):
     prog = ctx.prog
     ctx.rule("L2", "every sampler returns a tree on every path; the SMC driver consumes one data point per update over len(data_points) steps and is handed the order drawn from the tree", 10)
     tt = _TreeTyped(prog)
     n = 0
+    unrecognised = []
+    memo_tl = {}
     for fi in prog.functions.values():
         if fi.name == "sample_tree" and fi.cls is not None and fi.parent is None:
             n += 1
+            try:
+                vals, verdicts = _fn_tree_like(prog, fi, memo_tl)
+            except AnalysisError as e:
+                verdicts, vals = [None], [None]
+                unrecognised.append("%s: %s" % (_short(fi), str(e)[:120]))
+                ctx.analysed(fi)
+                continue
+            if any(v is False for v in verdicts):
+                bad = [show(x)[:120] if x is not None else "None (a path falls off the end or returns nothing)" for x, v in zip(vals, verdicts) if v is False]
+                ctx.fail("L2", "%s returns a tree on every path" % _short(fi), fi.where(), "on some path %s returns %s, which is not a tree" % (_short(fi), bad[0]), construct=fi.qualname, stmt="returns a tree")
+                ctx.analysed(fi)
+                continue
+            if all(v is True for v in verdicts):
+                ctx.ok("L2", "%s returns a tree on every path" % _short(fi), fi.where(), "%d path(s)" % len(vals))
+                ctx.analysed(fi)
+                continue
             ok, why = tt.fn_returns_tree(fi)
+            definite = any(m in why for m in ("returns None", "falls off the end", "has no return", "a particle, not its tree"))
+            if not ok and not definite:
+                # the value is built in a way this syntactic typing does not follow (tuple unpacking, a helper, a
+                # comprehension …): undecided, never a violation
+                unrecognised.append("%s: %s" % (_short(fi), why))
+                ctx.analysed(fi)
+                continue
             ctx.check(ok, "L2", "%s returns a tree on every path" % _short(fi), fi.where(), why, construct=fi.qualname, stmt="returns a tree")
             ctx.analysed(fi)
     if n < 5:
@@ -1161,6 +1372,8 @@ def rule_L2(ctx):
         """, us)
     ctx.check(_eq(ex.result, sp.result), "L2", "UnconditionalSMCSampler.sample_tree runs the SMC sampler over the order drawn from its tree", us.where(), "the returned tree is %s" % show(ex.result)[:300], construct=us.qualname, stmt="SMC over sample(tree)")
     ctx.analysed(f, init, pp, us)
+    if unrecognised:
+        raise AnalysisError("L2: cannot decide whether a tree is returned — %s" % "; ".join(unrecognised)[:400])
 
 
 def rule_N0(ctx):
